@@ -506,7 +506,10 @@ func (cc *jobcontroller) syncJob(jobInfo *apis.JobInfo, updateStatus state.Updat
 				}
 
 				if jobhelpers.IsOutOfSyncPod(pod) {
-					podToDelete = append(podToDelete, pod) // delete out-of-sync pods
+					// delete out-of-sync pods; they are counted once, as terminating,
+					// when the deletion below succeeds
+					podToDelete = append(podToDelete, pod)
+					continue
 				}
 
 				classifyAndAddUpPodBaseOnPhase(pod, &pending, &running, &succeeded, &failed, &unknown)
